@@ -2,12 +2,16 @@
 
 Real code: generate() + Model.simplify({'expand_vectors': True}) versus generate() alone.
 * names: every array variable must expand to scalars named with 1-based Modelica indices placed at
-  the component level that owns the dimension (a[1].x[2], der(v[3]), _pymoca_delay_0[2]) in row-major
+  the component level that owns the dimension (a[1].x[2], der(v[3]), _pymoca_delay_0[2,1]) in row-major
   order, in the position of the original variable; outputs / delay states renamed alike;
 * attributes: z3 proves the metadata Function of the expanded model equal, row by row under the
   renaming, to that of the unexpanded model for all parameter values;
-* residuals: z3 proves expanded dae/initial residual and delay arguments equal to the unexpanded
-  ones under x[i,j] -> element (i,j) for all values.
+* residuals: z3 proves expanded dae/initial residual and delay arguments (expression AND duration)
+  equal to the unexpanded ones under x[i,j] -> element (i,j) for all values.
+
+The model family is MODELS (hand-written) + TENSOR_MODELS + the generators gen_attr_* (which attribute of
+which kind of variable carries which kind of array-valued expression), gen_outputs (order and kinds of the
+output list) and gen_delay* (what is delayed x what the duration is made of); see family().
 """
 import itertools
 import os
@@ -205,6 +209,17 @@ equation
   v[1:2] = q[2:3] + s3[1:2]; v[3] = r[2];
   t = sum(q) + sum(s3);
   der(C) = lo - C;
+end M;
+""",
+ # array-literal attribute of an array inside an ARRAY of components: generate() does not replicate the literal along the
+ # component dimension (qq.w is 2x3, its start stays [1, 2, 3]) (known finding)
+ "comp-array-literal-attr": """model Q
+  Real w[3](start = {1, 2, 3});
+equation
+  der(w) = -w;
+end Q;
+model M
+  Q qq[2];
 end M;
 """,
  # `each` attribute written as a constant arithmetic expression: generate() folds it to a 1x1 ca.DM (known finding)
@@ -497,7 +512,7 @@ end M;
 def family(tier):
     """[(model id, text)] for the tier."""
     thorough = tier == "thorough"
-    items = list(MODELS.items())
+    items = list(MODELS.items()) + list(TENSOR_MODELS.items())
     # (A) symbolic array attributes
     for dims in ATTR_SHAPES:
         for rot in range(NK):
@@ -564,6 +579,127 @@ def expected_names(sym):
     return out
 
 
+# Arrays with three or more dimensions in total (T[2,2,2], qq[2].A[2,2], qq[2].r[3].x[2]) exist only under expand_vectors
+# (generate() refuses them otherwise) and pymoca cannot subscript them, so they can only be DECLARED.  There is no
+# unexpanded Function to compare with and no value-level claim to make: names, order, attribute elements (nested
+# literals / scalars), python types and outputs are compared concretely against the not-yet-simplified model.
+TENSOR_MODELS = {
+ "tensor:top-level": """model M
+  parameter Real P[2,1,2] = {{{1, 2}}, {{5, 6}}};
+  output Real U[1,2,2](start = {{{1, 2}, {3, 4}}}, each min = -1);
+  Integer K[2,2,2](start = {{{1, 2}, {3, 4}}, {{5, 6}, {7, 8}}}, max = {{{9, 8}, {7, 6}}, {{5, 4}, {3, 2}}});
+  Real V[2,3,2](each start = 1.5, each fixed = true);
+  Real s;
+  output Real o[2];
+equation
+  der(s) = -s;
+  o[1] = s; o[2] = 2 * s;
+end M;
+""",
+ "tensor:comp-array-holding-matrix": """model Q
+  Real A[2,3](each start = 2);
+  parameter Real g[2];
+  Real y;
+end Q;
+model M
+  Q qq[2];
+  Q rr[2,2];
+  output Real s;
+equation
+  der(s) = -s;
+end M;
+""",
+ "tensor:nested-comp-arrays": """model R
+  Real x[2](each max = 9);
+  Real z;
+end R;
+model Q
+  R r[3];
+  R r1;
+  Real A[2,2];
+end Q;
+model M
+  Q qq[2];
+  Q q1;
+  Real s;
+equation
+  der(s) = -s;
+end M;
+""",
+}
+_ATTRS = ("value", "min", "max", "start", "fixed", "nominal")
+_CATS = ["states", "der_states", "alg_states", "inputs", "parameters", "constants"]
+
+
+def _same_const(a, b):
+    try:
+        fa, fb = float(a), float(b)
+    except Exception:
+        return str(a) == str(b)
+    return fa == fb or (fa != fa and fb != fb)
+
+
+def check_tensor(col, mid, text):
+    for mx in (0, 1):
+        opts = {"expand_vectors": True, "expand_mx": True} if mx else {"expand_vectors": True}
+        case = f"{mid}|mx{mx}"
+        try:
+            base = pipeline.real_generate(text, "M", opts)      # generated, not simplified: still holds the tensors
+        except Exception as e:
+            col.append("unsupported_models", f"{mid}: {type(e).__name__}: {str(e)[:80]}")
+            return
+        try:
+            ex = pipeline.real_generate(text, "M", opts)
+            ex.simplify(dict(opts))
+            ex.dae_residual_function, ex.variable_metadata_function
+        except Exception as e:
+            col.violation(f"{case}:raises:{type(e).__name__}", f"expand_vectors raises {type(e).__name__}: {str(e)[-100:]} on a model with declared 3-D+ arrays",
+                          {"model_text": text, "options": opts})
+            continue
+        n_tensor = 0
+        for cat in _CATS:
+            want = []
+            for v in getattr(base, cat):
+                en = expected_names(v.symbol)
+                if en is None:
+                    want.append((v.symbol.name(), v, None))
+                    continue
+                dims = [d for lv in v.symbol._modelica_shape for d in lv if d is not None]
+                n_tensor += len(dims) > 2
+                want += [(a, v, ind) for (a, _), ind in zip(en, np.ndindex(*dims))]
+            got = getattr(ex, cat)
+            if [v.symbol.name() for v in got] != [w[0] for w in want]:
+                col.violation(f"{case}:{cat}:names", f"expanded {cat} are {[v.symbol.name() for v in got]}, expected {[w[0] for w in want]}",
+                              {"model_text": text, "options": opts})
+                continue
+            for (nm, bv, ind), ev in zip(want, got):
+                if ev.symbol.numel() != 1:
+                    col.violation(f"{case}:{cat}:{nm}:not-scalar", "expanded variable is not a scalar", {"model_text": text})
+                if ev.python_type is not bv.python_type:
+                    col.violation(f"{case}:type:{nm}", "python type changed by expansion", {"model_text": text})
+                for a in _ATTRS:
+                    b, e = getattr(bv, a), getattr(ev, a)
+                    if ind is not None and isinstance(b, list):
+                        for i in ind:
+                            b = b[i]
+                    elif isinstance(b, (ca.DM, np.ndarray)) or (isinstance(b, ca.MX) and b.numel() != 1):
+                        raise EncodingGap(f"{nm}.{a}: {type(b).__name__} attribute on a tensor")
+                    col.bump("tensor_attribute_elements")
+                    if not _same_const(b, e):
+                        col.violation(f"{case}:attr:{nm}:{a}", f"attribute {a} of {nm} is {e}, the element of the array's attribute is {b}",
+                                      {"model_text": text, "options": opts})
+        want_out = []
+        for o in base.outputs:
+            sym = next(v.symbol for v in base.states + base.alg_states if v.symbol.name() == o)
+            en = expected_names(sym)
+            want_out += [a for a, _ in en] if en else [o]
+        if list(ex.outputs) != want_out:
+            col.violation(f"{case}:outputs", f"outputs {list(ex.outputs)}, expected {want_out}", {"model_text": text, "options": opts})
+        if not n_tensor:
+            raise EncodingGap(f"{mid}: no 3-D+ symbol in the generated model")
+        col.bump("tensor_programs")
+
+
 def _replay(fa, names_a, oa, ka, fb, names_b, ob, kb, pt):
     """numeric replay of a z3 `sat` on the two real Functions: (value a, value b) if they differ, else None."""
     for p in equiv.perturbations(pt, 0):
@@ -580,11 +716,18 @@ def _replay(fa, names_a, oa, ka, fb, names_b, ob, kb, pt):
 def check(col, mid, text):
     try:
         base = pipeline.real_generate(text, "M")
-        base_fns = (base.dae_residual_function, base.initial_residual_function, base.variable_metadata_function,
-                    base.delay_arguments_function)
     except Exception as e:
         col.append("unsupported_models", f"{mid}: {type(e).__name__}: {str(e)[:80]}")
         return
+    try:
+        base_fns = (base.dae_residual_function, base.initial_residual_function, base.variable_metadata_function,
+                    base.delay_arguments_function)
+        base_note = ""
+    except Exception as e:
+        # generate() succeeded but one of the unexpanded model's Functions cannot be built: there is nothing to compare
+        # an expansion with, but an expansion that RAISES on such a model is still reported
+        base_fns = None
+        base_note = f" (a Function of the unexpanded model is unusable as well: {type(e).__name__}: {str(e)[-80:]})"
     for opts in ({"expand_vectors": True}, {"expand_vectors": True, "expand_mx": True}):
         case = f"{mid}|mx{int(bool(opts.get('expand_mx')))}"
         try:
@@ -593,8 +736,11 @@ def check(col, mid, text):
             ex_fns = (ex.dae_residual_function, ex.initial_residual_function, ex.variable_metadata_function,
                       ex.delay_arguments_function)
         except Exception as e:
-            col.violation(f"{case}:raises:{type(e).__name__}", f"expand_vectors raises {type(e).__name__}: {str(e)[-100:]} on a model that compiles without it",
+            col.violation(f"{case}:raises:{type(e).__name__}", f"expand_vectors raises {type(e).__name__}: {str(e)[-100:]} on a model that compiles without it" + base_note,
                           {"model_text": text, "options": opts})
+            continue
+        if base_fns is None:
+            col.append("unsupported_models", f"{case}: unexpanded model has no usable Functions{base_note[:120]}")
             continue
         rename = {}
         ok = True
@@ -749,7 +895,7 @@ def work(item):
     mid, text = item
     col = Collector()
     try:
-        check(col, mid, text)
+        (check_tensor if mid.startswith("tensor:") else check)(col, mid, text)
         col.sample({"model": mid, "text": text}, 1)
     except EncodingGap as g:
         col.append("encoding_gaps", f"{mid}: {g}")
@@ -770,10 +916,36 @@ def main():
     cov["disagreements_checked"] = rep.queries.get("sat", 0)
     cov["functions_encoded"] = ["Model._expand_vectors (via simplify, both code paths: with and without expand_mx)",
                                 "dae/initial residual, variable_metadata, delay_arguments Functions before and after"]
-    cov["bounds"] = "arrays up to 3 / 2x3, arrays of components holding arrays, derivative arrays, delayed arrays, size-1 arrays; all values unbounded reals"
-    rep.assumptions += ["real arithmetic; divisors non-zero", "naming convention of the statement: indices attach to the component level that declares the dimension, row-major order"]
+    classes = {}
+    for mid, _ in items:
+        k = mid.split(":")[0] if ":" in mid else "hand-written"
+        classes[k] = classes.get(k, 0) + 1
+    cov["family_models_per_class"] = classes
+    cov["bounds"] = (
+        f"{len(items)} models x 2 option sets (expand_vectors with / without expand_mx); all numeric values unbounded reals. "
+        "Shapes [1], [3], [1,1], [1,3], [3,1], [2,2], [2,3], [3,2], components qq / qq[1] / qq[2] / qq[3] holding [3] arrays and scalars. "
+        f"(A) attributes: state, algebraic, input, parameter (value and bounds), output state, constant of every shape, each of start/min/max/nominal/value "
+        f"rotated through {NK} expression kinds ({', '.join(k for k, _ in ATTR_KINDS)}; lo, hi array parameters of the variable's shape, p scalar parameter), "
+        "fixed as Boolean array literal or each; the same with the attributes given by modification of a component array from outside and written inside the "
+        f"component class ({'all rotations' if args.tier == 'thorough' else 'all rotations for [2,3], [3,2] and qq[2], every second / fourth rotation for the other shapes / components'}); "
+        "scalar attributes naming elements of array parameters; Integer/Boolean arrays. "
+        f"(B) output lists: every sequence of {'1..4' if args.tier == 'thorough' else '1..3'} outputs over (differentiated state | algebraic) x (scalar | 1-D | 2-D) containing an array, "
+        f"without and with interleaved non-output arrays / scalars{'' if args.tier == 'thorough' else ' (length 3: interleaved arrays only, and only where the first two outputs differ in state / algebraic kind)'}. "
+        f"(C) delays: {len(DELAY_EXPRS)} delayed-expression kinds (whole vector, vector expression, element, element expression, whole 2-D array, 2-D elements, scalar, "
+        f"inside 1-D and 2-D for-loops) x {len(DELAY_DURS)} duration kinds (literal, scalar parameter, elements of 1-D / 2-D array parameters, of an array constant and of fixed "
+        "1-D / 2-D input arrays, sums and products of those), three delays per model, delays inside a component with its own array parameters. "
+        "(D) initial equations over arrays, der of whole 2-D arrays, matrix*vector / transpose / slices / sum, repo models SimplifyVector and DelayForLoop. "
+        "(E) declaration-only 3-D+ arrays (top-level [2,1,2]..[2,3,2], qq[2].A[2,3], rr[2,2].A[2,3], qq[2].r[3].x[2]): names, attribute elements, types, outputs compared "
+        "concretely (no Functions exist for them without expand_vectors, pymoca cannot subscript them)."
+    )
+    rep.assumptions += ["real arithmetic; divisors non-zero", "naming convention of the statement: indices attach to the component level that declares the dimension, row-major order",
+                        "delay states are named <state>[i,j] after the 2-D CasADi shape of the delayed expression (what the implementation has always produced; "
+                        "the statement only asks that they are renamed like the rest of the model)",
+                        "a model whose unexpanded Functions cannot be built is not compared (listed under unsupported_models) unless the expansion itself raises"]
     if not cov.get("programs"):
         rep.harness_error("nothing compared")
+    if len(cov.get("unsupported_models", [])) > len(items) // 20:
+        rep.harness_error(f"{len(cov['unsupported_models'])} of {len(items)} family members are not compiled by the unchanged generate(): the family no longer covers what the bounds say")
     return rep.finish()
 
 
